@@ -31,7 +31,9 @@ class SPEC:
             "harness start), binary built with -race and run with GORACE=halt_on_error=0 log_path=..., ONE PROCESS PER "
             "SCENARIO. C raw clients (net.Dial / tls.Dial, own IPFIX encoder) run concurrently; client i uses observation "
             "domain i+1 and numbers its messages 0..n-1 in the IPFIX sequence-number field (0 = template set, the others "
-            "one data record carrying domain and number again), then closes (c), writes half a message and closes (a), stays "
+            "one data record carrying domain and number again - in the scenarios whose seed is a multiple of 4, one in three, some data "
+            "messages repeat that record 130, 600 or 5000 times: 4.8 KB and 40 KB messages over TCP/TLS, past the reader's 4096-byte "
+            "buffer; at most 1220 bytes over UDP), then closes (c), writes half a message and closes (a), stays "
             "connected (i) or writes half a message and stays connected (h). With `shared=<r>` ALL clients export in observation "
             "domain 1 with template id 256 - one stored template in the collector - and every client sends the template set "
             "again as every r-th of its messages (an ordinary numbered message of its connection), so that template "
@@ -115,6 +117,13 @@ def build_harness():
 TRANSPORTS = ["tcp", "udp", "tls"]
 
 
+def sseed(rng):
+    """scenario seed; a multiple of 4 (one scenario in three) makes the clients mix in messages of 600 and 5000 records
+    (4.8 KB and 40 KB - larger than the reader's 4096-byte buffer; UDP: <= 1220 bytes), see harness-mux numRecords"""
+    v = rng.randrange(1, 1 << 28) * 4
+    return v if rng.random() < 1 / 3 else v + rng.randint(1, 3)
+
+
 def op(t, seed, stopmid, clients, shared=0):
     return "mux scenario %s %d %s %s%s" % (t, seed, "-" if stopmid is None else str(stopmid), ",".join("%d%s" % c for c in clients),
                                          " shared=%d" % shared if shared else "")
@@ -128,7 +137,7 @@ def gen_shared(rng, t, nclients, lo, hi, kind):
     if kind == "shared-mixed":
         for i in rng.sample(range(nclients), max(1, nclients // 4)):
             clients[i][1] = rng.choice("aih")
-    return op(t, rng.randrange(1, 1 << 30), None, [tuple(c) for c in clients], shared=rng.randint(2, 4))
+    return op(t, sseed(rng), None, [tuple(c) for c in clients], shared=rng.randint(2, 4))
 
 
 def gen_scenario(rng, t, nclients, maxmsgs, kind):
@@ -159,7 +168,7 @@ def gen_scenario(rng, t, nclients, maxmsgs, kind):
             clients[0][0] = max(clients[0][0], 8)
             total = sum(c[0] for c in clients)
         stopmid = rng.randint(1, max(1, total // 2))
-    return op(t, rng.randrange(1, 1 << 30), stopmid, [tuple(c) for c in clients])
+    return op(t, sseed(rng), stopmid, [tuple(c) for c in clients])
 
 
 def gen_ops(rng, tier):
@@ -191,9 +200,9 @@ def gen_ops(rng, tier):
     for _ in range(2 if tier != "thorough" else 20):
         n = rng.randint(2, 6)
         cl = [(0, "s")] + [(rng.randint(1, 20), "c") for _ in range(n)]
-        ops.append((op("tls", rng.randrange(1, 1 << 30), None, cl), "stalled-handshake"))
+        ops.append((op("tls", sseed(rng), None, cl), "stalled-handshake"))
     # Stop() with nothing received yet: the application's only synchronisation with Start() is GetAddress() != nil
-    ops.append((op("udp", rng.randrange(1, 1 << 30), None, [(0, "c")]), "start-stop"))
+    ops.append((op("udp", sseed(rng), None, [(0, "c")]), "start-stop"))
     # exporters that share an observation domain and a template id and keep re-sending the template (generated last:
     # the scenarios above are the same as before for a given seed)
     for t in TRANSPORTS:
